@@ -15,6 +15,9 @@ CLAIMS = {
  'C10': dict(cat='proof', ref='DESIGN.md 7 (C10)',
    text="The gate in the open path (FileHDF5::checkHeader, the constructor's Force handling) accepts exactly the triples the statement allows, for all modes and both Force values; canRead/canWrite and all six comparison operators of FormatVersion (include/nix/Version.hpp) carry the statement as postconditions over all int triples; order laws (irreflexive, transitive, trichotomy, derived operators) and the read/write gate are lemmas over those contracts.",
    note=NOTE_COMMON + "checkHeader and the constructor statement applying the Force flag are under contract with the header attributes as ghost inputs (every content libhdf5 can report); that libhdf5 returns the stored attributes is assumed. The library version is left arbitrary."),
+ 'C11': dict(cat='proof', ref='DESIGN.md 7 (C11), 12',
+   text="Kernel claim: FileHDF5::close, with loop contracts on both loops: a closed file is left alone; otherwise the three root groups are closed, every identifier libhdf5 lists for the file is driven to reference count 0, and only then the file identifier is closed, exactly once; enumeration errors throw before the file identifier is closed.",
+   note=NOTE_COMMON + "Kernel only: libhdf5's identifier table is a ghost array of 8 reference counts with definitional stubs for H5Fget_obj_count / H5Fget_obj_ids / H5Iget_ref / H5Oclose (from the HDF5 manual); durability of flush/close, SIGKILL, reopening and stale entity handles are not covered."),
  'C13': dict(cat='proof', ref='DESIGN.md 7 (C13), 12',
    text="Kernel claim: the invariant of the descriptor list is a postcondition of every entry point under contract - createDimensionGroup only (re)creates the group of an index in 1..count+1 and touches no other; appendRangeDimension / RangeDimension::ticks hand only ascending ticks to the back end; appendSampledDimension / SampledDimension::samplingInterval only positive intervals, at index count+1, with the offset as given.",
    note=NOTE_COMMON + "Kernel only: the back end is a ghost record of what it was asked to store; read-back after reopen, alias redirection (HDF5 hard link), set and data-frame dimensions and deleteDimensions are not covered. std::is_sorted is an assumed contract."),
@@ -35,7 +38,7 @@ NA = {
  'C20': "breadth-first search over std::list/std::function on HDF5-backed handles; not extractable without writing a model",
 }
 PENDING = {k: "check not built yet (planned kernel claim, DESIGN.md section 7)" for k in
-           ['C01', 'C05', 'C06', 'C11', 'C14', 'C18', 'C19']}
+           ['C01', 'C05', 'C06', 'C14', 'C18', 'C19']}
 def main():
     extra = json.load(open(os.path.join(ROOT, 'vlib', 'claims_extra.json'))) if os.path.exists(os.path.join(ROOT, 'vlib', 'claims_extra.json')) else {}
     checks = []
